@@ -1,2 +1,525 @@
--- C07 property theorems (to be written)
+/-
+  Property C07 — network daemons acknowledge a message if and only if exactly it was queued.
+
+  Models: Nq/QmailC.lean (qmail.c), Nq/Received.lean (received.c, date822fmt.c, datetime.c),
+  Nq/Netstring.lean (qmail-qmtpd.c, qmail-qmqpd.c, smtp_data() of qmail-smtpd.c); specification
+  vocabulary: Nq/Spec/C07.lean.  The tables these theorems mention (`Gen.QQClose`, `Gen.Safe`,
+  `Gen.C07`) are regenerated from /repo on every run, so the statements are re-checked against
+  the source as it is now.  The tie between the hand-written models and the C code is the
+  correspondence run of ./check C07.
+-/
 import Nq.Basic
+import Nq.QmailC
+import Nq.Received
+import Nq.Netstring
+import Nq.Spec.C07
+import Nq.Lemmas.C07Sub
+import Nq.Lemmas.C07Qq
+import Nq.Lemmas.C07Daemons
+
+namespace Nq.Props.C07
+open Nq Nq.QmailC Nq.Received Nq.Netstring
+open Nq.Gen.QQClose
+
+/-! ## 1. qmail.c: the failure flag -/
+
+/-- `flagerr` is sticky: whatever the daemon calls afterwards, it stays set. -/
+theorem C07_flagerr_sticky (q : QQ) (ops : List QOp) (h : q.flagerr = true) : (q.run ops).flagerr = true :=
+  QQ.run_mono ops q h
+
+/-- Once `flagerr` is set nothing further reaches qmail-queue: `put/puts/to/fail/close` leave both pipes as they are
+    (in particular `qmail_close` does not send the envelope terminator). -/
+theorem C07_flagerr_silences (q : QQ) (op : QOp) (h : q.flagerr = true) (hop : ∀ s, op ≠ .from_ s) :
+    (q.apply op).envPipe = q.envPipe ∧ (q.apply op).msgPipe = q.msgPipe := by
+  cases op with
+  | put bs => show (q.put bs).envPipe = _ ∧ (q.put bs).msgPipe = _; rw [QQ.put_flagerr q bs h]; exact ⟨rfl, rfl⟩
+  | fail => exact ⟨rfl, rfl⟩
+  | from_ s => exact absurd rfl (hop s)
+  | to r =>
+    show (q.to r).envPipe = _ ∧ (q.to r).msgPipe = _
+    have : q.to r = q := by
+      unfold QQ.to; rw [QQ.put_flagerr q _ h, QQ.put_flagerr q _ h, QQ.put_flagerr q _ h]
+    rw [this]; exact ⟨rfl, rfl⟩
+  | close =>
+    show q.close.envPipe = _ ∧ q.close.msgPipe = _
+    unfold QQ.close
+    rw [QQ.put_flagerr q [0] h]
+    simp [h, QQ.envPipe, QQ.msgPipe]
+
+/-- **C07_fail_no_terminator.**  Whatever happened while the message was copied (`q` arbitrary, any write-fault
+    schedule), after `qmail_from` and any sequence of `qmail_to` / `qmail_fail` / one-shot recipient blocks:
+    if `qmail_close` ends with `flagerr` set, the bytes qmail-queue reads on descriptor 1 do not contain a complete
+    envelope — qmail-queue's scanner (`envParse`, qmail-queue.c main) hits end of file (`die_read`, exit 54) and
+    queues nothing. -/
+theorem C07_fail_no_terminator (q : QQ) (sender : Bytes) (eops : List QOp) (h : ∀ op ∈ eops, EnvOp op)
+    (hf : (((q.from_ sender).run eops).close).flagerr = true) :
+    envComplete (((q.from_ sender).run eops).close).envPipe = false :=
+  QQ.close_fail_good _ (QQ.run_good eops _ (QQ.from_good q sender) h) hf
+
+/-- **C07_cut (queue side).**  If the daemon exits before `qmail_close` (client disconnect at any later byte,
+    `badproto`, `resources`, `die_read`, stray newline), the envelope pipe holds no complete envelope — with or
+    without failures, whatever was buffered or flushed. -/
+theorem C07_cut_no_envelope (q : QQ) (sender : Bytes) (eops : List QOp) (h : ∀ op ∈ eops, EnvOp op) :
+    envComplete ((q.from_ sender).run eops).envPipe = false :=
+  envPipe_good _ (QQ.run_good eops _ (QQ.from_good q sender) h)
+
+/-- … and before `qmail_from` the envelope pipe is empty. -/
+theorem C07_cut_before_from (q : QQ) (h : q.inEnv = false) : q.envPipe = [] ∧ envComplete q.envPipe = false := by
+  simp [QQ.envPipe, h, envComplete, envParse]
+
+example : EnvOp (.to [97, 64, 98]) ∧ EnvOp .fail ∧ EnvOp (.put (entries [[97], [98, 0, 99]])) :=
+  ⟨.to _, .fail, .rcptto _⟩
+
+/-! ## 2. qmail_close: the verdict -/
+
+theorem lookup_mem {α : Type} : ∀ (l : List (Nat × α)) (e : Nat) (s : α), l.lookup e = some s → (e, s) ∈ l
+  | [], _, _, h => by simp [List.lookup] at h
+  | (k, v) :: l, e, s, h => by
+    unfold List.lookup at h
+    split at h
+    · rename_i heq; simp at h; simp at heq; subst heq; subst h; simp
+    · exact List.mem_cons_of_mem _ (lookup_mem l e s h)
+
+/-- every string of the switch is non-empty, starts with D or Z, and starts with D exactly for 11..40 and 115;
+    82 has no `case` of its own -/
+def tableOK : Bool :=
+  table.all (fun p => !p.2.isEmpty && (p.2.head? == some 68 || p.2.head? == some 90) &&
+    ((p.2.head? == some 68) == ((11 ≤ p.1 && p.1 ≤ 40) || p.1 == 115)) && p.1 != 82 && p.1 < 256)
+
+theorem tableOK_true : tableOK = true := by decide
+
+theorem table_entry (e : Nat) (s : Bytes) (h : table.lookup e = some s) :
+    s ≠ [] ∧ (s.head? = some 68 ∨ s.head? = some 90) ∧ (s.head? = some 68 ↔ ((11 ≤ e ∧ e ≤ 40) ∨ e = 115)) ∧ e ≠ 82 := by
+  have hm := lookup_mem table e s h
+  have := tableOK_true
+  unfold tableOK at this
+  rw [List.all_eq_true] at this
+  have h1 := this (e, s) hm
+  simp only [Bool.and_eq_true, Bool.not_eq_true', bne_iff_ne, ne_eq, decide_eq_true_eq, beq_iff_eq,
+    Bool.or_eq_true] at h1
+  obtain ⟨⟨⟨⟨h1, h2⟩, h3⟩, h4⟩, _⟩ := h1
+  refine ⟨by intro hs; simp [hs] at h1, h2, ?_, h4⟩
+  constructor
+  · intro hd; simp [hd] at h3; simpa using h3
+  · intro he
+    have : ((decide (11 ≤ e) && decide (e ≤ 40)) || e == 115) = true := by simpa using he
+    rw [this] at h3; simpa using h3
+
+/-- the custom text honours the interface of qmail-queue.8: it starts with `D` or `Z` -/
+def TextOK (t : Bytes) : Prop := t.head? = some 68 ∨ t.head? = some 90
+
+theorem errstr_head (t : Bytes) (h : TextOK t) : (errstr t).head? = t.head? ∧ errstr t ≠ [] := by
+  unfold errstr
+  cases t with
+  | nil => simp [TextOK] at h
+  | cons c r =>
+    have hc : c ≠ 0 := by
+      rcases h with h | h <;> simp at h <;> subst h <;> decide
+    have : List.take errMax (c :: r) = c :: List.take 254 r := by simp [errMax]
+    rw [this]; unfold cstr; simp [hc]
+
+/-- **C07_verdict (success).**  `qmail_close` returns "" exactly when the queue program exited 0, did not crash and no
+    failure was flagged (for every exit status, every custom text that honours the interface). -/
+theorem C07_verdict (exit : Nat) (crashed flagerr : Bool) (text : Bytes) (ht : TextOK text ∨ text.length ≤ 2) :
+    closeVerdict exit crashed flagerr text = [] ↔ (exit = 0 ∧ crashed = false ∧ flagerr = false) := by
+  have hz : zeroGuarded = true := by decide
+  unfold closeVerdict
+  cases crashed
+  · simp only [Bool.false_eq_true, ↓reduceIte, hz, Bool.not_true, Bool.false_or]
+    by_cases h0 : exit = 0 ∧ (!flagerr) = true
+    · simp only [h0, and_self, ↓reduceIte, true_and]
+      simpa using h0.2
+    · simp only [h0, ↓reduceIte]
+      constructor
+      · intro hv
+        exfalso
+        cases hl : table.lookup exit with
+        | some s => rw [hl] at hv; exact (table_entry exit s hl).1 hv
+        | none =>
+          rw [hl] at hv
+          simp only at hv
+          split at hv
+          · rename_i hc
+            rcases ht with ht | ht
+            · exact (errstr_head text ht).2 hv
+            · have := hc.2; simp [customMinLen, errMax] at this; omega
+          · split at hv
+            · exact absurd hv (by decide)
+            · exact absurd hv (by decide)
+      · intro ⟨he, _, hf⟩; exact absurd ⟨he, by simp [hf]⟩ h0
+  · simp only [↓reduceIte]
+    constructor
+    · intro h; exact absurd h (by decide)
+    · intro ⟨_, h, _⟩; exact absurd h (by simp)
+
+/-- **C07_verdict (the interface gap, what the code does outside the hypothesis of `C07_verdict`).**  A queue program
+    that exits 82 and writes a text of more than two bytes beginning with NUL makes `qmail_close` return "" —
+    which every daemon takes for success. -/
+theorem C07_verdict_gap (flagerr : Bool) : closeVerdict 82 false flagerr [0, 120, 121] = [] := by
+  cases flagerr <;> decide
+
+/-- **C07_verdict (classes).**  Whenever the verdict is not success it starts with `D` or `Z`, and with `D` exactly in
+    the cases qmail-queue.8 calls permanent: 11..40, 115 (alias of 11), 82 with a text starting with `D`.
+    A crash, exit 0 with `flagerr`, and every other status (51.., 81, 91, 120, ≥ 256 …) give `Z`. -/
+theorem C07_verdict_class (exit : Nat) (crashed flagerr : Bool) (text : Bytes) (ht : TextOK text ∨ text.length ≤ 2)
+    (hne : closeVerdict exit crashed flagerr text ≠ []) :
+    ((closeVerdict exit crashed flagerr text).head? = some 68 ∨ (closeVerdict exit crashed flagerr text).head? = some 90) ∧
+    ((closeVerdict exit crashed flagerr text).head? = some 68 ↔
+      Nq.Spec.C07.qqClass exit crashed text = .perm) := by
+  have hz : zeroGuarded = true := by decide
+  unfold closeVerdict at hne ⊢
+  unfold Nq.Spec.C07.qqClass
+  cases crashed
+  · simp only [Bool.false_eq_true, ↓reduceIte, hz, Bool.not_true, Bool.false_or] at hne ⊢
+    by_cases h0 : exit = 0 ∧ (!flagerr) = true
+    · simp [h0] at hne
+    · simp only [h0, ↓reduceIte]
+      cases hl : table.lookup exit with
+      | some s =>
+        have te := table_entry exit s hl
+        simp only
+        refine ⟨te.2.1, ?_⟩
+        rw [te.2.2.1]
+        by_cases he0 : exit = 0
+        · subst he0; simp
+        · simp only [he0, ↓reduceIte, te.2.2.2, false_and]
+          constructor
+          · intro h; simp [h]
+          · intro h; split at h <;> simp_all
+      | none =>
+        have h115 : exit ≠ 115 := by intro h; subst h; revert hl; decide
+        have he0 : exit ≠ 0 := by intro h; subst h; revert hl; decide
+        simp only [he0, ↓reduceIte]
+        by_cases hc : exit = customCode ∧ min text.length errMax > customMinLen
+        · have hlen : text.length > 2 := by
+            have := hc.2; simp [customMinLen, errMax] at this; omega
+          have h82 : exit = 82 := hc.1
+          subst h82
+          rcases ht with ht | ht
+          · have eh := errstr_head text ht
+            have hcc : (82 = customCode ∧ min text.length errMax > customMinLen) := hc
+            simp only [hcc, and_self, ↓reduceIte, eh.1, hlen, true_and]
+            refine ⟨ht, ?_⟩
+            rcases ht with ht | ht <;> simp [ht]
+          · omega
+        · simp only [hc, ↓reduceIte]
+          have hnc : ¬ (exit = 82 ∧ text.length > 2) := by
+            intro ⟨a, b⟩; apply hc; refine ⟨a, ?_⟩; simp [customMinLen, errMax]; omega
+          simp only [hnc, ↓reduceIte, h115, or_false]
+          by_cases hp : permLo ≤ exit ∧ exit ≤ permHi
+          · have hp' : 11 ≤ exit ∧ exit ≤ 40 := hp
+            simp only [hp, and_self, ↓reduceIte, hp']
+            exact ⟨Or.inl (by decide), by decide⟩
+          · have hp' : ¬ (11 ≤ exit ∧ exit ≤ 40) := hp
+            simp only [hp, ↓reduceIte, hp']
+            exact ⟨Or.inr (by decide), by decide⟩
+  · simp only [↓reduceIte]
+    exact ⟨Or.inr (by decide), by decide⟩
+
+example : TextOK [68, 110, 111] := Or.inl rfl
+example : closeVerdict 31 false false [] ≠ [] := by decide
+
+/-! ## 3. received.c -/
+
+theorem byte_cases (P : Byte → Prop) (h : ∀ n, n < 256 → P (UInt8.ofNat n)) (c : Byte) : P c := by
+  have := h c.toNat (UInt8.toNat_lt c)
+  simpa using this
+
+/-- what `safeput` may emit: a byte `issafe` accepts, or the replacement `?` — in every case a printable ASCII
+    byte that is not a space, a parenthesis, CR or LF -/
+def Harmless (b : Byte) : Prop :=
+  (issafe b = true ∨ b = QMARK) ∧ 32 < b ∧ b < 127 ∧ b ≠ 40 ∧ b ≠ 41
+
+instance (b : Byte) : Decidable (Harmless b) := by unfold Harmless; exact inferInstance
+
+set_option maxRecDepth 100000 in
+theorem sanitize_safe : ∀ c : Byte, Harmless (sanitize c) :=
+  byte_cases _ (by decide)
+
+/-- **C07_received_safe (a).**  Every byte `safeput` emits is one `issafe` accepts or the replacement character `?`
+    (which `issafe` itself does not list — the design note said "satisfies issafe"; that is false for `?`), hence
+    printable, not a space, not a parenthesis, not CR/LF — whatever HELO / TCPREMOTE* contain. -/
+theorem C07_received_safe (s : Bytes) : ∀ b ∈ safeput s, Harmless b := by
+  intro b hb
+  unfold safeput at hb
+  rw [List.mem_map] at hb
+  obtain ⟨c, _, rfl⟩ := hb
+  exact sanitize_safe c
+
+example : sanitize 10 = QMARK ∧ issafe QMARK = false := by decide
+
+set_option maxRecDepth 100000 in
+theorem sanitize_ne_lf : ∀ c : Byte, sanitize c ≠ LF :=
+  byte_cases _ (by decide)
+
+theorem safeput_count_lf (s : Bytes) : (safeput s).count LF = 0 := by
+  rw [List.count_eq_zero]
+  intro h
+  unfold safeput at h
+  rw [List.mem_map] at h
+  obtain ⟨c, _, hc⟩ := h
+  exact sanitize_ne_lf c hc
+
+theorem digitsAux_digits : ∀ (fuel n : Nat) (acc : Bytes), (∀ b ∈ acc, isDigit b = true) →
+    ∀ b ∈ digitsAux fuel n acc, isDigit b = true
+  | 0, _, acc, h => by simpa [digitsAux] using h
+  | fuel + 1, n, acc, h => by
+    have hd : isDigit (UInt8.ofNat (48 + n % 10)) = true := by
+      have : n % 10 < 10 := Nat.mod_lt _ (by decide)
+      have h2 : ∀ k, k < 10 → isDigit (UInt8.ofNat (48 + k)) = true := by decide
+      exact h2 _ this
+    have hacc : ∀ b ∈ UInt8.ofNat (48 + n % 10) :: acc, isDigit b = true := by
+      intro b hb; rcases List.mem_cons.mp hb with rfl | hb
+      · exact hd
+      · exact h b hb
+    unfold digitsAux
+    split
+    · exact hacc
+    · exact digitsAux_digits fuel (n / 10) _ hacc
+
+theorem fmtU_digits (n : Nat) : ∀ b ∈ fmtU n, isDigit b = true :=
+  digitsAux_digits (n + 1) n [] (by simp)
+
+theorem fmtU_count_lf (n : Nat) : (fmtU n).count LF = 0 := by
+  rw [List.count_eq_zero]; intro h
+  have := fmtU_digits n LF h
+  exact absurd this (by decide)
+
+theorem fmtU0_count_lf (u k : Nat) : (fmtU0 u k).count LF = 0 := by
+  unfold fmtU0
+  rw [List.count_append, fmtU_count_lf, List.count_replicate]
+  simp [LF]
+
+theorem months_count_lf (m : Nat) : (months.getD m []).count LF = 0 := by
+  by_cases h : m < 12
+  · have : ∀ k, k < 12 → (months.getD k []).count LF = 0 := by decide
+    exact this m h
+  · have h2 : months[m]? = none := List.getElem?_eq_none (by simp [months]; omega)
+    have : months.getD m [] = [] := by simp [List.getD, h2]
+    rw [this]; rfl
+
+theorem date822_count_lf (dt : DT) : (date822 dt).count LF = 1 := by
+  unfold date822
+  simp only [List.count_append, fmtU_count_lf, fmtU0_count_lf, months_count_lf]
+  decide
+
+/-- **C07_received_safe (b).**  The Received field is exactly two lines — it contains exactly two LF, the second
+    one being its last byte — whatever HELO, TCPREMOTEHOST, TCPREMOTEINFO, TCPREMOTEIP, TCPLOCALHOST contain and
+    whatever the clock says. -/
+theorem C07_received_two_lines (proto : Bytes) (p : Peer) (helo : Option Bytes) (t : Nat) (hp : proto.count LF = 0) :
+    (received proto p helo t).count LF = 2 ∧ (received proto p helo t).getLast? = some LF := by
+  constructor
+  · unfold received
+    cases helo <;> cases hi : p.info <;>
+      simp only [List.count_append, safeput_count_lf, date822_count_lf, hp, List.count_nil] <;> decide
+  · unfold received date822
+    simp only [← List.append_assoc]
+    rw [List.getLast?_append]
+    simp [lZone, LF]
+
+example : (received pSMTP ⟨some [10, 32, 10], none, some [40, 10], none, none⟩ (some [13, 10]) 0).count LF = 2 := by decide
+
+/-! ## 4. the replies -/
+
+/-- a verdict as `qmail_close` produces it for a queue program that honours its interface: success, or `D…`, or `Z…` -/
+def VerdictOK (v : Bytes) : Prop := v = [] ∨ v.head? = some 68 ∨ v.head? = some 90
+
+theorem verdict_ok (exit : Nat) (crashed flagerr : Bool) (text : Bytes) (ht : TextOK text ∨ text.length ≤ 2) :
+    VerdictOK (closeVerdict exit crashed flagerr text) := by
+  by_cases h : closeVerdict exit crashed flagerr text = []
+  · exact Or.inl h
+  · exact Or.inr (C07_verdict_class exit crashed flagerr text ht h).1
+
+/-- **C07_qmtp_ack.**  The status qmail-qmtpd sends for the recipients it handed to the queue is `K…` exactly when
+    `qmail_close` reported success, the sender was acceptable and the size limit did not trip; otherwise it is `D…`
+    for an unacceptable sender and for the size limit, and the queue's own `D…`/`Z…` verdict in the remaining cases. -/
+theorem C07_qmtp_ack (m : Qmtp.Msg) (v : Bytes) (now pid : Nat) (hv : VerdictOK v) :
+    ((Qmtp.result m v now pid).head? = some 75 ↔ (v = [] ∧ m.senderok = true ∧ m.overflow = false)) ∧
+    (m.overflow = true → Qmtp.result m v now pid = Qmtp.sTooBig) ∧
+    (m.overflow = false → m.senderok = false → Qmtp.result m v now pid = Qmtp.sUnacceptable) ∧
+    (m.overflow = false → m.senderok = true → v ≠ [] → Qmtp.result m v now pid = v) := by
+  unfold Qmtp.result
+  cases ho : m.overflow <;> cases hs : m.senderok
+  · simp [Qmtp.sUnacceptable]
+  · simp only [↓reduceIte, Bool.false_eq_true]
+    by_cases he : v = []
+    · subst he; simp [Qmtp.sKok]
+    · have hne : v.isEmpty = false := by cases v <;> simp_all
+      simp only [hne, Bool.false_eq_true, ↓reduceIte, he, false_and, iff_false, and_true, true_and, ne_eq,
+        not_false_eq_true, implies_true, and_self]
+      refine ⟨?_, by simp, by simp⟩
+      rcases hv with hv | hv | hv
+      · exact absurd hv he
+      · rw [hv]; simp
+      · rw [hv]; simp
+  · simp [Qmtp.sTooBig]
+  · simp [Qmtp.sTooBig]
+
+/-- per recipient: `K` only for a recipient that was handed to the queue (failure byte 0); every other recipient
+    (NUL, ≥ 1000 bytes, not in rcpthosts) gets a permanent `D` -/
+theorem C07_qmtp_rcpt_reply (m : Qmtp.Msg) (res : Bytes) :
+    Qmtp.replies m res = m.failure.map (fun f => if f = 0 then Qmtp.netstring res else if f = Qmtp.fD then Qmtp.sRcpthosts else Qmtp.sCantHandle) ∧
+    (Qmtp.sRcpthosts.drop 3).head? = some 68 ∧ (Qmtp.sCantHandle.drop 3).head? = some 68 :=
+  ⟨rfl, by decide, by decide⟩
+
+/-- which recipients are refused: over-long (with RELAYCLIENT appended), containing NUL, or not in rcpthosts -/
+theorem C07_qmtp_rcpt_policy (cfg : Qmtp.Cfg) (a : Bytes) :
+    Qmtp.rcptFail cfg a = 0 ↔
+      (a.length + (cfg.relay.getD []).length < Nq.Gen.C07.qmtpAddrMax ∧ a.contains 0 = false ∧
+       (cfg.relay.isSome = true ∨ rcpthostsOk cfg.rcpthosts a = true)) := by
+  unfold Qmtp.rcptFail Qmtp.fL Qmtp.fN Qmtp.fD
+  by_cases hl : a.length + (cfg.relay.getD []).length ≥ Nq.Gen.C07.qmtpAddrMax
+  · simp only [hl, ↓reduceIte]
+    constructor
+    · intro h; exact absurd h (by decide)
+    · intro ⟨h, _⟩; omega
+  · simp only [hl, ↓reduceIte]
+    have hl' : a.length + (cfg.relay.getD []).length < Nq.Gen.C07.qmtpAddrMax := by omega
+    cases hr : cfg.relay with
+    | some r =>
+      cases hn : a.contains 0
+      · simp [hr] at hl' ⊢; exact hl'
+      · simp
+    | none =>
+      cases hh : rcpthostsOk cfg.rcpthosts a <;> cases hn : a.contains 0 <;> simp [hr] at hl' ⊢ <;> try exact hl'
+
+/-- **C07_qmqp_ack.**  qmail-qmqpd answers `K…` exactly when `qmail_close` reported success and no address was
+    over-long or contained NUL; a bad address gives a permanent `D`; otherwise the queue's verdict is passed on. -/
+theorem C07_qmqp_ack (flagok : Bool) (v : Bytes) (now pid : Nat) (hv : VerdictOK v) :
+    ((Qmqp.result flagok v now pid).head? = some 75 ↔ (v = [] ∧ flagok = true)) ∧
+    (flagok = false → Qmqp.result flagok v now pid = Qmqp.sCantAccept) ∧
+    (flagok = true → v ≠ [] → Qmqp.result flagok v now pid = v) := by
+  unfold Qmqp.result
+  cases flagok
+  · simp [Qmqp.sCantAccept]
+  · simp only [Bool.not_true, Bool.false_eq_true, ↓reduceIte, and_true]
+    by_cases he : v = []
+    · subst he; simp [Qmtp.sKok]
+    · have hne : v.isEmpty = false := by cases v <;> simp_all
+      simp only [hne, Bool.false_eq_true, ↓reduceIte, he, iff_false]
+      refine ⟨?_, by simp, by simp⟩
+      rcases hv with hv | hv | hv
+      · exact absurd hv he
+      · rw [hv]; simp
+      · rw [hv]; simp
+
+/-- **C07_smtp_ack.**  After DATA qmail-smtpd says `250 ok …` exactly when `qmail_close` reported success; otherwise
+    554 for too many hops, else 552 for the size limit, else `554`/`451` followed by the queue's text according to its
+    `D`/`Z` class. -/
+theorem C07_smtp_ack (d : Smtp.Data) (qqx : Bytes) (now pid : Nat) :
+    ((Smtp.reply d qqx now pid).take 4 = [50, 53, 48, 32] ↔ qqx = []) ∧
+    (qqx ≠ [] → d.hopsBad = true → Smtp.reply d qqx now pid = Smtp.sHops) ∧
+    (qqx ≠ [] → d.hopsBad = false → d.overflow = true → Smtp.reply d qqx now pid = Smtp.sSize) ∧
+    (qqx ≠ [] → d.hopsBad = false → d.overflow = false →
+       Smtp.reply d qqx now pid = (if qqx.head? = some Smtp.D then Smtp.s554 else Smtp.s451) ++ qqx.drop 1 ++ Smtp.crlf) := by
+  unfold Smtp.reply
+  by_cases he : qqx = []
+  · subst he; simp [Smtp.sOk250]
+  · have hne : qqx.isEmpty = false := by cases qqx <;> simp_all
+    simp only [hne, Bool.false_eq_true, ↓reduceIte, he, iff_false, ne_eq, not_false_eq_true, true_implies]
+    cases hh : d.hopsBad <;> cases ho : d.overflow <;> simp [Smtp.sHops, Smtp.sSize, Smtp.s554, Smtp.s451, Smtp.D]
+    by_cases hD : qqx.head? = some 68 <;> simp [hD]
+
+/-- the size limit trips exactly at `databytes + 1` stored bytes: `put()`'s countdown started at databytes+1 reaches 0
+    after exactly that many bytes -/
+theorem C07_smtp_size_trip (db n : Nat) (hdb : db ≠ 0) : Smtp.decN (db + 1) n = 0 ↔ n ≥ db + 1 := by
+  have key : ∀ (n b : Nat), Smtp.decN b n = b - n := by
+    intro n; induction n with
+    | zero => intro b; rfl
+    | succ k ih => intro b; simp only [Smtp.decN, ovfDec]; rw [ih]; omega
+  rw [key]; omega
+
+/-! ## 5. content: on an acknowledgement the queue program has received exactly that message -/
+
+theorem envelope_eq (sbuf : Bytes) (rs : List Bytes) :
+    entry 70 sbuf ++ entries rs ++ [0] = envelope (cstr sbuf) (rs.map cstr) := by
+  have h : (fun x => entry 84 x) = (fun x : Bytes => 84 :: (cstr x ++ [0])) := by funext x; rfl
+  unfold envelope entries
+  simp [List.map_map, Function.comp_def, entry, List.append_assoc]
+  exact congrArg (fun f => (List.map f rs).flatten) h
+
+/-- success verdict ⇒ no failure was flagged (for a queue program that honours its interface) -/
+theorem verdict_flagerr (q : QQ) (e : QEnd) (ht : TextOK e.text ∨ e.text.length ≤ 2) (hv : q.verdict e = []) :
+    q.flagerr = false ∧ e.exit = 0 ∧ e.crashed = false := by
+  have := (C07_verdict e.exit e.crashed q.flagerr e.text ht).mp hv
+  exact ⟨this.2.2, this.1, this.2.1⟩
+
+/-- **C07_content (QMTP).**  When qmail-qmtpd has read a message completely and `qmail_close` reports success (the only
+    case in which a `K` status is sent, `C07_qmtp_ack`) then — for every body, every write-fault schedule, every peer —
+    the queue program has received on descriptor 0 exactly the Received field followed by the stored (decoded) body, and
+    on descriptor 1 exactly `F sender NUL (T recipient NUL)* NUL` with the accepted recipients (the ones answered `K`),
+    in order. -/
+theorem C07_content_qmtp (cfg : Qmtp.Cfg) (inp : Bytes) (w : Option Nat) (e : QEnd)
+    (ht : TextOK e.text ∨ e.text.length ≤ 2)
+    (hstop : (Qmtp.msg cfg inp).stop = none)
+    (hv : ((QQ.opened w).run (Qmtp.msg cfg inp).ops).verdict e = []) :
+    ((QQ.opened w).run (Qmtp.msg cfg inp).ops).msgPipe = received pQMTP cfg.peer none cfg.now ++ (Qmtp.msg cfg inp).stored ∧
+    ((QQ.opened w).run (Qmtp.msg cfg inp).ops).envPipe =
+      envelope (Qmtp.msg cfg inp).sender ((Qmtp.msg cfg inp).rcpts.map cstr) ∧
+    e.exit = 0 ∧ e.crashed = false := by
+  have hf := verdict_flagerr _ e ht hv
+  obtain ⟨mops, eops, sbuf, h1, h2, h3, h4, h5, h6⟩ := Qmtp.msg_shape cfg inp hstop
+  rw [h3] at hf ⊢
+  have hc := QQ.content (QQ.opened w) mops eops sbuf rfl rfl (fun op ho => pf_plain (h1 op ho)) h2 hf.1
+  refine ⟨?_, ?_, hf.2⟩
+  · rw [hc.1, stream_pf mops h1, h4]
+  · rw [hc.2, h6, h5]; exact envelope_eq sbuf _
+
+/-- **C07_content (QMQP).** -/
+theorem C07_content_qmqp (cfg : Qmqp.Cfg) (inp : Bytes) (w : Option Nat) (e : QEnd)
+    (ht : TextOK e.text ∨ e.text.length ≤ 2)
+    (hstop : (Qmqp.parse cfg inp).stop = none)
+    (hv : ((QQ.opened w).run (Qmqp.parse cfg inp).ops).verdict e = []) :
+    ((QQ.opened w).run (Qmqp.parse cfg inp).ops).msgPipe = received pQMQP cfg.peer none cfg.now ++ (Qmqp.parse cfg inp).stored ∧
+    ((QQ.opened w).run (Qmqp.parse cfg inp).ops).envPipe =
+      envelope (cstr (Qmqp.parse cfg inp).sender) ((Qmqp.parse cfg inp).rcpts.map cstr) ∧
+    e.exit = 0 ∧ e.crashed = false := by
+  have hf := verdict_flagerr _ e ht hv
+  obtain ⟨mops, eops, h1, h2, h3, h4, h6⟩ := Qmqp.parse_shape cfg inp hstop
+  rw [h3] at hf ⊢
+  have hc := QQ.content (QQ.opened w) mops eops _ rfl rfl (fun op ho => pf_plain (h1 op ho)) h2 hf.1
+  refine ⟨?_, ?_, hf.2⟩
+  · rw [hc.1, stream_pf mops h1, h4]
+  · rw [hc.2, h6]; exact envelope_eq _ _
+
+/-- **C07_content (SMTP).**  After a terminated DATA with verdict success: descriptor 0 = Received field ++ the body as
+    the decoder of C05 (`dblast`) accepts it; descriptor 1 = `F mailfrom NUL` ++ the `rcptto` block ++ NUL. -/
+theorem C07_content_smtp (cfg : Smtp.Cfg) (helo : Option Bytes) (mailfrom : Bytes) (rs : List Bytes) (inp : Bytes)
+    (w : Option Nat) (e : QEnd) (ht : TextOK e.text ∨ e.text.length ≤ 2)
+    (hstop : (Smtp.data cfg helo mailfrom (entries rs) inp).stop = none)
+    (hv : ((QQ.opened w).run (Smtp.data cfg helo mailfrom (entries rs) inp).ops).verdict e = []) :
+    ((QQ.opened w).run (Smtp.data cfg helo mailfrom (entries rs) inp).ops).msgPipe =
+      received pSMTP cfg.peer (Smtp.fakehelo cfg.peer helo) cfg.now ++ (Smtp.data cfg helo mailfrom (entries rs) inp).stored ∧
+    Nq.SmtpIn.dblast inp = .accepted (Smtp.data cfg helo mailfrom (entries rs) inp).stored (Smtp.data cfg helo mailfrom (entries rs) inp).rest ∧
+    ((QQ.opened w).run (Smtp.data cfg helo mailfrom (entries rs) inp).ops).envPipe = envelope (cstr mailfrom) (rs.map cstr) ∧
+    e.exit = 0 ∧ e.crashed = false := by
+  have hf := verdict_flagerr _ e ht hv
+  obtain ⟨mops, h1, h3, h4, h5⟩ := Smtp.data_shape cfg helo mailfrom (entries rs) inp hstop
+  rw [h3] at hf ⊢
+  have hc := QQ.content (QQ.opened w) mops [.put (entries rs)] mailfrom rfl rfl (fun op ho => pf_plain (h1 op ho))
+    (by intro op ho; simp at ho; subst ho; rfl) (by simpa [List.append_assoc] using hf.1)
+  have hrw : mops ++ [QOp.from_ mailfrom] ++ [QOp.put (entries rs)] ++ [QOp.close] =
+      mops ++ [QOp.from_ mailfrom] ++ [QOp.put (entries rs)] ++ [QOp.close] := rfl
+  refine ⟨?_, h5, ?_, hf.2⟩
+  · rw [hc.1, stream_pf mops h1, h4]
+  · rw [hc.2]
+    have : stream [QOp.put (entries rs)] = entries rs := by simp [stream]
+    rw [this]; exact envelope_eq _ _
+
+/-! ## 6. the known gap in qmail-qmtpd's recipient lengths -/
+
+/-- As shipped (`qmtpRcptDigitCheck = 0`, read off qmail-qmtpd.c by the translator) the recipient length loop takes
+    any byte for a digit: "1/" counts as 9, "<" as 12. -/
+theorem C07_qmtp_rcptlen_gap (h : Nq.Gen.C07.qmtpRcptDigitCheck = 0) :
+    (match Qmtp.rcptLen Nq.Gen.C07.qmtpLenMax 3 0 [49, 47, 58] with | .ok (n, _) _ => n = 9 | _ => False) ∧
+    (match Qmtp.rcptLen Nq.Gen.C07.qmtpLenMax 2 0 [60, 58] with | .ok (n, _) _ => n = 12 | _ => False) := by
+  constructor <;> simp [Qmtp.rcptLen, h, Qmtp.wrapLen, COLON, Nq.Gen.C07.qmtpLenMax]
+
+/-- With the digit check (the proposed repair) a non-digit byte in a recipient length is refused. -/
+theorem C07_qmtp_rcptlen_strict (h : Nq.Gen.C07.qmtpRcptDigitCheck = 1) (big acc : Nat) (c : Byte) (rest : Bytes)
+    (hc : c ≠ COLON) (hd : c < 48 ∨ c > 57) (hacc : acc ≤ Nq.Gen.C07.qmtpLenMax) :
+    (match Qmtp.rcptLen Nq.Gen.C07.qmtpLenMax (big + 1) acc (c :: rest) with | .stop .badproto _ => True | _ => False) := by
+  have : ¬ acc > Nq.Gen.C07.qmtpLenMax := by omega
+  simp [Qmtp.rcptLen, h, hc, hd, this]
+
+end Nq.Props.C07
